@@ -9,6 +9,10 @@ from ..core import CTX, attempt, held, violated, undefined, same_array, peek, sh
 from .. import gen, contracts
 
 PROP = "C04"
+LEVEL_TEXT = 'Every event is judged against numpy applied to the flat buffer with np.repeat column broadcasting, exactly incl. result dtype and signs of zeros; 11 unary + 23 binary ufuncs, 121 dtype pairs, 11 operand kinds, both sides, operator and ufunc spelling. Exploration.'
+LEVEL_NOTE = "trusts numpy 2.x, CPython (copy.copy, slice semantics, big ints) and the reference model in rtmon/props/c04.py; decides the executions it produces, nothing more"
+TECHNIQUE = 'runtime monitoring: reference-model oracle (numpy on the flat buffer, independent of the XOR-scatter broadcast) + operand-purity check'
+DESIGN_REF = "DESIGN.md sections 0, 5 (C04), 7"
 RULE = ("case = (row lengths, dtype, flat values, ufunc, operand kind, side, operand dtype/values, operator-or-ufunc spelling); "
         "distinct = hash of the case; non-trivial = >= 2 rows and >= 1 cell (or operands that must be refused)")
 ASSUMPTIONS = ["events for which numpy itself raises on the flat computation are 'undefined' (DESIGN 7.4)",
